@@ -259,7 +259,9 @@ enum HOp {
     AddAll(UDPEndpoint),
     RmAll(UDPEndpoint),
     Filt(bool),
-    Push { ep: UDPEndpoint, key: String, data: Rc<Vec<u8>>, now: SystemTime },
+    /// `neutral`: for a packet edited in a way that must not change what it delivers (A flag set, CCI rewritten)
+    /// the unedited packet; `a_edit`: the edit set the Close Session flag; `close`: the stream's bare close packet
+    Push { ep: UDPEndpoint, key: String, data: Rc<Vec<u8>>, now: SystemTime, neutral: Option<Rc<Vec<u8>>>, a_edit: bool, close: Option<Rc<Vec<u8>>> },
     Cleanup(SystemTime),
     Drop,
 }
@@ -341,6 +343,7 @@ pub struct TsiEngine {
     all_ev: Vec<(bool, String)>,
     all_cb: Vec<Cb>,
     had_tick: bool,
+    has_neutral_edits: bool,
     opn: u64,
     /// secondary listeners: id -> (log, index into all_ev at registration, index at removal)
     sec: HashMap<u64, (EvLog, usize, Option<usize>)>,
@@ -363,6 +366,7 @@ impl TsiEngine {
             all_ev: Vec::new(),
             all_cb: Vec::new(),
             had_tick: false,
+            has_neutral_edits: false,
             opn: 0,
             sec: HashMap::new(),
             completes: 0,
@@ -499,7 +503,19 @@ impl TsiEngine {
         }
     }
 
-    fn push(&mut self, ep: UDPEndpoint, tsi: u64, kind: &str, data: Rc<Vec<u8>>, o: &mut Oracle) -> String {
+    #[allow(clippy::too_many_arguments)]
+    fn push(
+        &mut self,
+        ep: UDPEndpoint,
+        tsi: u64,
+        kind: &str,
+        data: Rc<Vec<u8>>,
+        neutral: Option<Rc<Vec<u8>>>,
+        a_edit: bool,
+        b_edit: bool,
+        close: Option<Rc<Vec<u8>>>,
+        o: &mut Oracle,
+    ) -> String {
         // the op line's claim about the packet must be what flute's own parser says
         match (kind, flute::core::alc::parse_alc_pkt(&data)) {
             ("x", Err(_)) => {}
@@ -513,7 +529,10 @@ impl TsiEngine {
         let now = self.now();
         let key = key_tok(&ep, tsi);
         if kind != "x" {
-            self.hist.push(HOp::Push { ep: ep.clone(), key: key.clone(), data: data.clone(), now });
+            if neutral.is_some() {
+                self.has_neutral_edits = true;
+            }
+            self.hist.push(HOp::Push { ep: ep.clone(), key: key.clone(), data: data.clone(), now, neutral, a_edit, close });
         }
         let r = {
             let l = self.live.as_mut().unwrap();
@@ -527,6 +546,9 @@ impl TsiEngine {
                 return "PANIC".into();
             }
             Ok(Ok(())) => "ok",
+            // a Close Object flag put on an arbitrary packet may legitimately make the session's Receiver answer Err
+            // (its result is part of the opaque per-session output, not of the demultiplexer's behaviour)
+            Ok(Err(_)) if b_edit => "ok",
             Ok(Err(_)) => "err",
         };
         let was_pending = self.pending.contains(&key);
@@ -692,8 +714,12 @@ impl TsiEngine {
         format!("opens {} closes {}", opens, closes)
     }
 
-    /// replay this case's history restricted to the packets of `key` on a fresh MultiReceiver
-    fn solo(&self, key: &str) -> (Vec<(bool, String)>, Vec<Cb>) {
+    /// replay this case's history restricted to the packets of `key` on a fresh MultiReceiver.
+    /// `reference`: packets that were edited in a delivery-neutral, RFC-legal way are replaced by what they stand for:
+    /// a packet with the Close Session flag set = the same packet without the flag followed by a bare close-session
+    /// packet (ignored altogether, like any close indication, when the session does not exist); a rewritten CCI =
+    /// the unedited packet.
+    fn solo(&self, key: &str, reference: bool) -> (Vec<(bool, String)>, Vec<Cb>) {
         let mut evs = Vec::new();
         let mut cbs = Vec::new();
         let mut live: Option<Live> = None;
@@ -728,9 +754,25 @@ impl TsiEngine {
                             HOp::AddAll(e) => l.mr.add_listen_all_tsi(e.clone()),
                             HOp::RmAll(e) => l.mr.remove_listen_all_tsi(e),
                             HOp::Filt(b) => l.mr.set_tsi_filtering(*b),
-                            HOp::Push { ep, key: k, data, now } => {
+                            HOp::Push { ep, key: k, data, now, neutral, a_edit, close } => {
                                 if k == key {
-                                    let _ = guarded(AssertUnwindSafe(|| l.mr.push(ep, data, *now)));
+                                    match (reference, neutral) {
+                                        (true, Some(plain)) if *a_edit => {
+                                            let open = evs.iter().rev().find(|e| e.1 == *k).map(|e| e.0).unwrap_or(false);
+                                            if open {
+                                                let _ = guarded(AssertUnwindSafe(|| l.mr.push(ep, plain, *now)));
+                                                if let Some(c) = close {
+                                                    let _ = guarded(AssertUnwindSafe(|| l.mr.push(ep, c, *now)));
+                                                }
+                                            }
+                                        }
+                                        (true, Some(plain)) => {
+                                            let _ = guarded(AssertUnwindSafe(|| l.mr.push(ep, plain, *now)));
+                                        }
+                                        _ => {
+                                            let _ = guarded(AssertUnwindSafe(|| l.mr.push(ep, data, *now)));
+                                        }
+                                    }
                                 }
                             }
                             HOp::Cleanup(now) => l.mr.cleanup(*now),
@@ -763,6 +805,7 @@ impl Engine for TsiEngine {
         self.all_ev.clear();
         self.all_cb.clear();
         self.had_tick = false;
+        self.has_neutral_edits = false;
         self.opn = 0;
         self.sec.clear();
         self.completes = 0;
@@ -882,6 +925,10 @@ impl Engine for TsiEngine {
                     _ => return "bad-op".into(),
                 };
                 let kind = t[4];
+                let mut neutral: Option<Rc<Vec<u8>>> = None;
+                let mut a_edit = false;
+                let mut b_edit = false;
+                let mut close_pkt: Option<Rc<Vec<u8>>> = None;
                 let data: Rc<Vec<u8>> = match kind {
                     "x" => Rc::new(garbage()),
                     "d" | "c" => {
@@ -896,22 +943,57 @@ impl Engine for TsiEngine {
                         if st.tsi != tsi {
                             return "bad-op".into();
                         }
-                        if kind == "c" {
+                        if kind == "c" && t.len() == 6 {
                             st.close.clone()
                         } else {
                             let idx = match t.get(6).and_then(|x| x.parse::<usize>().ok()) {
                                 Some(i) => i,
                                 None => return "bad-op".into(),
                             };
-                            match st.pkts.get(idx) {
+                            let plain = match st.pkts.get(idx) {
                                 Some(p) => p.clone(),
                                 None => return "bad-op".into(),
+                            };
+                            // RFC-legal edits of the genuine packet: A = Close Session flag, B = Close Object flag,
+                            // C<8 hex> = another 32-bit CCI
+                            if t.len() > 7 {
+                                let mut d: Vec<u8> = (*plain).clone();
+                                let mut is_neutral = true;
+                                for e in &t[7..] {
+                                    match *e {
+                                        "A" if d.len() > 1 => {
+                                            d[1] |= 0x02;
+                                            a_edit = true;
+                                        }
+                                        "B" if d.len() > 1 => {
+                                            d[1] |= 0x01;
+                                            is_neutral = false;
+                                            b_edit = true;
+                                        }
+                                        c if c.len() == 9 && c.starts_with('C') && d.len() >= 8 && (d[0] >> 2) & 3 == 0 => {
+                                            match u32::from_str_radix(&c[1..], 16) {
+                                                Ok(v) => d[4..8].copy_from_slice(&v.to_be_bytes()),
+                                                Err(_) => return "bad-op".into(),
+                                            }
+                                        }
+                                        _ => return "bad-op".into(),
+                                    }
+                                }
+                                if is_neutral {
+                                    neutral = Some(plain.clone());
+                                    close_pkt = Some(st.close.clone());
+                                } else {
+                                    a_edit = false;
+                                }
+                                Rc::new(d)
+                            } else {
+                                plain
                             }
                         }
                     }
                     _ => return "bad-op".into(),
                 };
-                self.push(ep, tsi, kind, data, o)
+                self.push(ep, tsi, kind, data, neutral, a_edit, b_edit, close_pkt, o)
             }
             ("tick", 2) => {
                 if self.live.is_none() {
@@ -1020,7 +1102,7 @@ impl Engine for TsiEngine {
             keys.insert(c.key.clone());
         }
         for k in keys.iter() {
-            let (sev, scb) = self.solo(k);
+            let (sev, scb) = self.solo(k, false);
             for c in scb.iter() {
                 if c.key != *k {
                     o.fail("callback-key", &format!("solo run of {} produced a callback carrying {}", k, c.key));
@@ -1050,6 +1132,30 @@ impl Engine for TsiEngine {
             let eb: Vec<&(bool, String)> = sev.iter().collect();
             if ea != eb {
                 o.fail("isolation", &format!("session {}: listener events differ between the interleaved run {:?} and the solo run {:?}", k, ea, eb));
+            }
+            if self.has_neutral_edits {
+                let (rev, rcb) = self.solo(k, true);
+                let r = canon(&rcb, k);
+                if a != r {
+                    let toi = a.keys().chain(r.keys()).find(|t| a.get(*t) != r.get(*t)).cloned().unwrap_or_default();
+                    o.fail(
+                        "flag-edit-delivery",
+                        &format!(
+                            "session {}: a genuine packet with the Close Session flag set / the CCI rewritten must deliver what the unedited packet delivers (then end the session), but the writer callbacks differ from the reference run (toi {}: got {:?} vs reference {:?})",
+                            k,
+                            toi,
+                            a.get(&toi),
+                            r.get(&toi)
+                        ),
+                    );
+                }
+                let er: Vec<&(bool, String)> = rev.iter().collect();
+                if ea != er {
+                    o.fail(
+                        "flag-edit-events",
+                        &format!("session {}: listener events {:?} differ from the reference run {:?} (close flag on a data packet = packet, then exactly one close)", k, ea, er),
+                    );
+                }
             }
             let nc = a.values().filter(|v| v.iter().any(|w| w == "complete")).count();
             self.completes += nc;
@@ -1190,6 +1296,9 @@ fn session_case(ctx: &mut Ctx, eng: &mut dyn Engine, rng: &mut Rng, id: &str, or
     let mut closes = 0;
     let mut ticks = 0;
     let mut listeners: Vec<(u64, bool)> = Vec::new();
+    let edits = rng.chance(1, 2);
+    let mut n_edits = 0;
+    let mut n_a_last = 0;
     let max_ticks = if with_ticks { rng.range(1, 2) } else { 0 };
     while remaining > 0 && steps < 4000 {
         steps += 1;
@@ -1273,7 +1382,36 @@ fn session_case(ctx: &mut Ctx, eng: &mut dyn Engine, rng: &mut Rng, id: &str, or
             } else {
                 s.cursor
             };
-            ctx.step(eng, &format!("tsi push {} {} d {} {}", s.ep, s.tsi, s.sid, idx));
+            // genuine packets edited in RFC-legal ways before they reach the receiver: Close Session flag on a data /
+            // FDT / last packet, Close Object flag, another CCI
+            let last = idx + 1 == s.len && idx == s.cursor;
+            let edit: String = if !edits {
+                String::new()
+            } else if last && rng.chance(1, 2) {
+                " A".into()
+            } else if idx == 0 && rng.chance(1, 30) {
+                " A".into()
+            } else {
+                match rng.below(400) {
+                    0 | 1 => " A".into(),
+                    2 | 3 => " B".into(),
+                    4 => " B A".into(),
+                    5..=16 => format!(" C{:08x}", rng.next() as u32),
+                    17 => format!(" C{:08x} A", rng.next() as u32),
+                    _ => String::new(),
+                }
+            };
+            let kind = if edit.ends_with('A') { "c" } else { "d" };
+            if !edit.is_empty() {
+                n_edits += 1;
+                if kind == "c" {
+                    closes += 1;
+                    if last {
+                        n_a_last += 1;
+                    }
+                }
+            }
+            ctx.step(eng, &format!("tsi push {} {} {} {} {}{}", s.ep, s.tsi, kind, s.sid, idx, edit));
             if idx == s.cursor {
                 s.cursor += 1;
                 remaining -= 1;
@@ -1301,6 +1439,12 @@ fn session_case(ctx: &mut Ctx, eng: &mut dyn Engine, rng: &mut Rng, id: &str, or
     if !listeners.is_empty() {
         ctx.count("session cases with listeners added/removed mid-way");
     }
+    if n_edits > 0 {
+        ctx.count("session cases with edited packets (A/B flag, CCI)");
+    }
+    if n_a_last > 0 {
+        ctx.count("session cases with the Close Session flag on the last data packet");
+    }
     let t_ops = t_case.elapsed();
     ctx.end_case(eng);
     if std::env::var("TSI_TIMING").is_ok() {
@@ -1326,7 +1470,7 @@ pub fn run(ctx: &mut Ctx, eng: &mut dyn Engine) {
          and alphabet 1 endpoint x source/no-source x TSI 1,2 (12 ops) to depth {}; after each sequence all 8 (endpoint, source?, tsi) data packets \
          are pushed through a real MultiReceiver with filtering on, bit = session opened, compared with the Lean model and with independent saturating counters; \
          (b) {} cases of 2-4 real Sender sessions (equal TSIs on distinct endpoints, distinct TSIs on one endpoint, distinct sources) interleaved by seeded schedules \
-         with close-session packets, cleanup, filter ops: per op the listener events vs model, per session callbacks (per TOI) and events vs a solo run, callbacks carry the packet's key; \
+         with close-session packets, cleanup, filter ops, listeners added/removed mid-way, and genuine packets edited in RFC-legal ways (Close Session flag on data / FDT / last packets, Close Object flag, rewritten CCI; callbacks and events must equal a reference run in which a close-flagged packet = the unedited packet + a bare close packet): per op the listener events vs model, per session callbacks (per TOI) and events vs a solo run, callbacks carry the packet's key; \
          (c) {} cases with out-of-order/duplicate packets and {} cases with session expiry (time-out {} ms, tick = {} ms sleep), drop at the end; \
          (d) {} runs of {} sessions expiring while cleanup runs continuously; non-trivial = sequences with an add, a remove and an accepted probe / every session case",
         d_full, d_one, n_iso, n_lis, n_exp, T_MS, TICK_MS, n_race, race_n
